@@ -322,12 +322,15 @@ def _is_name_slot(m, cg, f, idx) -> bool:
                     continue
                 uses = [x for x in walk_scope(caller.node) if isinstance(x, ast.Name) and x.id == nm.id and isinstance(x.ctx, ast.Load)]
                 ok_all = bool(uses)
+                from .c20 import creation_sites
+
+                created = {id(c_) for c_, _ in creation_sites(m, caller)}  # incl. `meta(name, bases, ns)` with `meta` bound to metaclasses only
                 for u in uses:
                     ok = False
                     for c in walk_scope(caller.node):
                         if isinstance(c, ast.Call) and c.args and c.args[0] is u:
                             t = m.resolve_call(caller, c)
-                            if t.kind == "class" and m.is_metaclass(t.target):
+                            if (t.kind == "class" and m.is_metaclass(t.target)) or id(c) in created:
                                 ok = True
                     ok_all = ok_all and ok
                 if ok_all:
